@@ -402,25 +402,31 @@ Lemma pragma_check_some : forall stmts, exists r, pragma_check stmts = Some r.
 Proof.
   induction stmts as [|st r IH]; [eexists; reflexivity|]. destruct IH as [a Ha].
   cbn [pragma_check fold_right] in *. fold (pragma_check r). rewrite Ha.
-  destruct (guard st) as [x|] eqn:E; [eexists; reflexivity|]. destruct (models_total st) as [_ H]. congruence.
+  destruct (guard (st_sql st)) as [x|] eqn:E; [eexists; reflexivity|]. destruct (models_total (st_sql st)) as [_ H]. congruence.
 Qed.
 
-Lemma pragma_check_true : forall stmts st, In st stmts -> guard st = Some true -> pragma_check stmts = Some true.
+Lemma pragma_check_true : forall stmts st, In st stmts -> guard (st_sql st) = Some true -> pragma_check stmts = Some true.
 Proof.
   induction stmts as [|x r IH]; intros st Hin Hg; [destruct Hin|].
   cbn [pragma_check fold_right]. fold (pragma_check r). destruct Hin as [->|Hin].
   - rewrite Hg. destruct (pragma_check_some r) as [a ->]. reflexivity.
-  - rewrite (IH st Hin Hg). destruct (guard x) as [b|] eqn:E; [rewrite orb_true_r; reflexivity|].
-    destruct (models_total x) as [_ H]. congruence.
+  - rewrite (IH st Hin Hg). destruct (guard (st_sql x)) as [b|] eqn:E; [rewrite orb_true_r; reflexivity|].
+    destruct (models_total (st_sql x)) as [_ H]. congruence.
 Qed.
 
 Theorem applied_everywhere : forall e stmts st effs,
-  In st stmts -> sqlite_effects st = Some effs -> effs <> [] -> store_refuses e stmts = Some true.
+  In st stmts -> sqlite_effects (st_sql st) = Some effs -> effs <> [] -> store_refuses e stmts = Some true.
 Proof.
   intros e stmts st effs Hin He Hne.
-  assert (H : pragma_check stmts = Some true) by (apply (pragma_check_true stmts st Hin), (guard_complete st effs He Hne)).
+  assert (H : pragma_check stmts = Some true) by (apply (pragma_check_true stmts st Hin), (guard_complete (st_sql st) effs He Hne)).
   destruct e; exact H.
 Qed.
+
+(* the same, with the flags of the statement spelled out: they are arbitrary *)
+Theorem applied_everywhere_flags : forall (e : entry) (stmts : list statement) sql explain force_query effs,
+  In {| st_sql := sql; st_explain := explain; st_force_query := force_query |} stmts ->
+  sqlite_effects sql = Some effs -> effs <> [] -> store_refuses e stmts = Some true.
+Proof. intros e stmts sql ex fq effs Hin. exact (applied_everywhere e stmts _ effs Hin). Qed.
 
 (* ---------- concrete instances: one per variation named in the property ---------- *)
 
@@ -464,6 +470,10 @@ Example ex_not_flagged :
                                   "/* PRAGMA synchronous=1 */ SELECT 1"; "X PRAGMA journal_mode=1"])
   = [Some false; Some false; Some false; Some false; Some false].
 Proof. vm_compute. reflexivity. Qed.
+(* the flags do not matter: a text the HTTP layer marks SqlExplain (its first statement is an EXPLAIN) *)
 Example ex_request :
-  store_refuses Query [bytes_of_string "SELECT 1"; bytes_of_string "/**/PRAGMA synchronous(1)"] = Some true.
-Proof. vm_compute. reflexivity. Qed.
+  store_refuses Query [ {| st_sql := bytes_of_string "SELECT 1"; st_explain := false; st_force_query := false |};
+                        {| st_sql := bytes_of_string "EXPLAIN SELECT 1; PRAGMA synchronous=2"; st_explain := true; st_force_query := false |} ]
+  = Some true
+  /\ sqlite_effects (bytes_of_string "EXPLAIN SELECT 1; PRAGMA synchronous=2") = Some [SetSynchronous].
+Proof. split; vm_compute; reflexivity. Qed.
